@@ -12,7 +12,7 @@ from typing import Any, Dict, List, Optional, Tuple
 
 import numpy
 
-from .. import core, model, seams
+from .. import prelude, core, model, seams
 from ..model import gen_poly
 
 ID = "C07"
@@ -141,7 +141,7 @@ def generate(rs: int, tier: str, index: int) -> dict:
         steps.append({"id": 0, "k": "pair", "a": {"poly": a}, "b": b, "swap": swap, "complex": kindc == "complex",
                       "extra_op": ch.below(6), "reach": _reach(ch.sub("r"))})
     pols = ALL_POLICIES if tier == "thorough" else ["stable", ch.choice(ALL_POLICIES[1:])]
-    return {"property": ID, "run_seed": rs, "tier": tier, "policies": pols, "steps": steps}
+    return {"property": ID, "run_seed": rs, "tier": tier, "prelude": prelude.gen_prelude(core.Chooser(rs, "prelude")), "policies": pols, "steps": steps}
 
 
 # ---------------------------------------------------------------------------
@@ -409,6 +409,7 @@ def execute(plan: dict) -> dict:
         warnings.simplefilter("ignore")
         with numpy.errstate(all="ignore"):
             try:
+                prelude.run_prelude(plan.get("prelude"), runner.stats)
                 runner.run()
             finally:
                 numpoly.set_options(**defaults)
@@ -416,6 +417,10 @@ def execute(plan: dict) -> dict:
 
 
 def simplify(plan: dict):
+    if plan.get("prelude"):
+        yield dict(plan, prelude=None)
+        for i in range(len(plan["prelude"])):
+            yield dict(plan, prelude=plan["prelude"][:i] + plan["prelude"][i + 1:] or None)
     if len(plan.get("policies", [])) > 1:
         for pol in plan["policies"]:
             yield dict(plan, policies=[pol])
